@@ -4,7 +4,6 @@ import (
 	"fmt"
 	"strings"
 
-
 	"verif/engine/core"
 	"verif/engine/eco"
 	"verif/engine/gen"
@@ -90,7 +89,7 @@ func versMustError(r, probe string) string {
 	return ""
 }
 
-var c17Sigma = []string{"a", "z", "A", "0", "9", ":", "/", "|", "*", "=", "<", ">", "!", ".", "-", " ", "\t", "\x00", "é", "~"}
+var c17Sigma = []string{"a", "z", "A", "0", "9", ":", "/", "|", "*", "=", "<", ">", "!", ".", "-", " ", "\t", "\x00", "é", "~", "\x7f", "\x1f", "\x80"}
 
 func c17Seeds(scheme string, lvl int) []string {
 	p0, p1 := versPools[scheme][0], versPools[scheme][1]
@@ -335,7 +334,7 @@ func init() {
 				"distinct_nontrivial":           r.Counters["nontrivial"],
 			}
 		},
-		Rule:        "validation: for 3 (quick) / 5 (thorough) valid seed ranges per scheme, EVERY single-point corruption - delete at each position, replace by and insert each character of {a z A 0 9 : / | * = < > ! . - SP TAB NUL e-acute ~} at each position - plus scheme case changes, operator manglings and prefix damage, each with 4 probes; a reference classifier (Appendix A.9) decides which results must be (false, error). routing: for each scheme every (comparator, bound, probe) over 45 discriminating version spellings must equal the scheme's ecosystem's own Compare and must be an error iff that ecosystem rejects a version; the run also proves that for every other ecosystem at least one pair distinguishes it (internal error otherwise). 28 near-miss scheme names must be rejected. distinct_nontrivial = cases with a definite expectation.",
+		Rule:        "validation: for 3 (quick) / 5 (thorough) valid seed ranges per scheme, EVERY single-point corruption - delete at each position, replace by and insert each character of {a z A 0 9 : / | * = < > ! . - SP TAB NUL e-acute ~ DEL 0x1f 0x80} at each position - plus scheme case changes, operator manglings and prefix damage, each with 4 probes; a reference classifier (Appendix A.9) decides which results must be (false, error). routing: for each scheme every (comparator, bound, probe) over 45 discriminating version spellings must equal the scheme's ecosystem's own Compare and must be an error iff that ecosystem rejects a version; the run also proves that for every other ecosystem at least one pair distinguishes it (internal error otherwise). 28 near-miss scheme names must be rejected. distinct_nontrivial = cases with a definite expectation.",
 		Assumptions: []string{"version validity in rule 9 of the classifier is the scheme's ecosystem parser itself (C17 states it that way)", "the lone '*' range is not covered, as stated"},
 	})
 }
